@@ -104,18 +104,26 @@ def line_obs(tier):
     F = 6 if tier == "quick" else 8
     rc = [["--replace-calls", "evdns_base_set_option_impl:c39_opt_recorder"]]
     o = []
-    def rl(name, n, af, extra, desc, **kw):
-        # loop bounds: `search` domains <= (n - 6) / 2 (each needs a blank and a byte), `options` tokens <= (n - 7) / 2
-        return ob(name, "harness_resolv", desc, ["C39_N=%d" % n, "C39_AF=%d" % af] + extra, unwind=max(n + 3, 12), instrument=rc, timeout=900, mem_gb=8,
-                  unwindset=["resolv_conf_parse_line.2:%d" % ((n - 6) // 2 + 2), "resolv_conf_parse_line.3:%d" % ((n - 7) // 2 + 2)], **kw)
+    def rl(name, n, af, extra, desc, prefix=None, **kw):
+        ln = n + (len(prefix) if prefix else 0)
+        defs = ["C39_N=%d" % n, "C39_AF=%d" % af] + list(extra) + (['C39_PREFIX="%s"' % prefix] if prefix else [])
+        # loop bounds: `search` domains <= (ln - 6) / 2 (each needs a blank and a byte), `options` tokens <= (ln - 7) / 2
+        return ob(name, "harness_resolv", desc, defs, unwind=max(ln + 3, 12), instrument=rc, timeout=900, mem_gb=5,
+                  unwindset=["resolv_conf_parse_line.2:%d" % (max(ln - 6, 0) // 2 + 2), "resolv_conf_parse_line.3:%d" % (max(ln - 7, 0) // 2 + 2)], **kw)
+    common = ("on a base with 0/1 nameserver and 0/1 search domain, any flags: nameserver ring, search list (order, leading dots), ndots, (option,value) pairs handed "
+              "to the option routine == reference; other lines change nothing; no leak (excluding KF-C39-ndots-reset)")
+    S = 7 if tier == "quick" else 8
+    o.append(rl("resolv_line_any_N%d" % S, S, 1, ["KF_EXCLUDE_NDOTS_RESET", "C39_W_DOMAIN"],
+                "resolv_conf_parse_line(any line <= %d bytes in an exact object) %s" % (S, common)))
+    T = 4 if tier == "quick" else 6
     for af, what in ((1, "yields an IPv4 address"), (0, "rejects the address"), (2, "yields an IPv6 address")):
-        n = N if af == 1 else 10
-        o.append(rl("resolv_line_N%d_af%d" % (n, af), n, af, ["KF_EXCLUDE_NDOTS_RESET"],
-                    "resolv_conf_parse_line(any line <= %d bytes in an exact object, any flags; the address parser %s) on a base with 0/1 nameserver and "
-                    "0/1 search domain: nameserver ring, search list (order, leading dots), ndots, (option,value) pairs handed to the option routine == "
-                    "reference; other lines change nothing; no leak (excluding KF-C39-ndots-reset)" % (n, what)))
-    o.append(rl("resolv_line_kf_ndots", 10, 1, ["KF_ONLY_NDOTS_RESET"],
-                "the same on exactly the KF-C39-ndots-reset inputs (domain/search line on a base whose ndots is not 1), lines <= 10 bytes",
+        o.append(rl("resolv_line_nameserver_T%d_af%d" % (T, af), T, af, ["KF_EXCLUDE_NDOTS_RESET", "C39_W_NS"],
+                    "resolv_conf_parse_line(\"nameserver\"[short of its last character] + <= %d arbitrary bytes; the address parser %s) %s" % (T, what, common), prefix="nameserver"))
+    for kw_, wit, t in (("search", "C39_W_SEARCH", T + 2), ("domain", "C39_W_DOMAIN", T), ("options", "C39_W_OPTIONS", T + 1)):
+        o.append(rl("resolv_line_%s_T%d" % (kw_, t), t, 1, ["KF_EXCLUDE_NDOTS_RESET", wit],
+                    "resolv_conf_parse_line(\"%s\"[short of its last character] + <= %d arbitrary bytes) %s" % (kw_, t, common), prefix=kw_))
+    o.append(rl("resolv_line_kf_ndots", 4, 1, ["KF_ONLY_NDOTS_RESET"],
+                "\"search\" + <= 4 arbitrary bytes on exactly the KF-C39-ndots-reset inputs (domain/search line on a base whose ndots is not 1)", prefix="search",
                 expect_fail=["C39: a domain/search line changed ndots"], known_finding="KF-C39-ndots-reset"))
     for af, what in ((0, "rejects the address"), (1, "yields an IPv4 address"), (2, "yields an IPv6 address")):
         o.append(ob("hosts_line_N%d_af%d" % (H, af), "harness_hosts",
